@@ -1,12 +1,16 @@
 #!/bin/bash
-# tools/mut.sh <file-in-repo> <python-regex-old> <new> -- <check args...>
-# apply a one-line source mutation to /repo, run the check, restore the tree
+# tools/mut.sh <file-in-repo> <old> <new> -- <check args...>
+# apply a one-line source mutation to a scratch worktree of /repo (never /repo itself), run the
+# check against it (VERIF_REPO), restore the worktree
 set -u
 f=$1; old=$2; new=$3; shift 4
-cd /repo
-if ! git diff --quiet; then echo "repo dirty"; exit 3; fi
+WT=/tmp/wt/mut
+if [ ! -d $WT ]; then mkdir -p /tmp/wt; git -C /repo worktree add -q --detach $WT HEAD || exit 3; fi
+git -C $WT checkout -q --detach $(git -C /repo rev-parse HEAD) 2>/dev/null
+git -C $WT checkout -q -- .
+cd $WT
 python3 - "$f" "$old" "$new" <<'PY'
-import sys,re
+import sys
 f,old,new=sys.argv[1:4]
 s=open(f).read()
 n=s.count(old)
@@ -15,7 +19,7 @@ if n!=1:
 open(f,'w').write(s.replace(old,new))
 PY
 rc=$?
-if [ $rc -ne 0 ]; then git checkout -- .; exit $rc; fi
+if [ $rc -ne 0 ]; then git checkout -q -- .; exit $rc; fi
 cd /verif
-./check "$@" 2>&1 | grep -E "^VIOLATION|^SUMMARY|^HARNESS|atom=" | cut -c1-250 | head -8
-git -C /repo checkout -- .
+VERIF_REPO=$WT ./check "$@" 2>&1 | grep -E "^VIOLATION|^SUMMARY|^HARNESS|atom=" | cut -c1-250 | head -8
+git -C $WT checkout -q -- .
